@@ -259,6 +259,34 @@ void table() {
         in[1] = (T)1 + std::frexp(g[1], &e) * (T)0.9;
       },
       { o[0] = SGC(S<HCR>(x[1]), S<CV>(x[0])).Value(); }, { o[0] = x[0] * (x[1] - 1); })
+
+  // gamma, cp, cv, R in every direction the tree offers (extensive and specific forms)
+  auto gamma2 = [](const T* g, T* in) {  // in[0] any positive, in[1] = a heat-capacity ratio in (1, 1.9]
+    int e;
+    in[0] = g[0];
+    in[1] = (T)1 + std::frexp(g[1], &e) * (T)0.9;
+  };
+  auto fraction2 = [](const T* g, T* in) {  // in[0] any positive, in[1] = a fraction (0.05, 0.5] of it (R < cp)
+    int e;
+    in[0] = g[0];
+    in[1] = g[0] * (std::frexp(g[1], &e) * (T)0.9 - (T)0.4);
+  };
+#define GAS_ROWS(CPt, CVt, Rt, L)                                                                                                                             \
+  ROW(L " cv(R, gamma) = R / (gamma - 1)", 2, 1, (CT(CVt, Ex<Rt>, Ex<HCR>)), gamma2, { o[0] = CVt(S<Rt>(x[0]), S<HCR>(x[1])).Value(); }, { o[0] = x[0] / (x[1] - 1); })   \
+  ROW(L " gamma(R, cv) = 1 + R / cv", 2, 1, (CT(HCR, Ex<Rt>, Ex<CVt>)), ID, { o[0] = HCR(S<Rt>(x[0]), S<CVt>(x[1])).Value(); }, { o[0] = 1 + x[0] / x[1]; })               \
+  ROW(L " cp(gamma, R) = gamma R / (gamma - 1)", 2, 1, (CT(CPt, Ex<HCR>, Ex<Rt>)), gamma2, { o[0] = CPt(S<HCR>(x[1]), S<Rt>(x[0])).Value(); }, { o[0] = x[1] * x[0] / (x[1] - 1); }) \
+  ROW(L " cp(gamma, cv) = gamma cv", 2, 1, (CT(CPt, Ex<HCR>, Ex<CVt>)), gamma2, { o[0] = CPt(S<HCR>(x[1]), S<CVt>(x[0])).Value(); }, { o[0] = x[1] * x[0]; })                \
+  ROW(L " gamma(cp, R) = cp / (cp - R)", 2, 1, (CT(HCR, Ex<CPt>, Ex<Rt>)), fraction2, { o[0] = HCR(S<CPt>(x[0]), S<Rt>(x[1])).Value(); }, { o[0] = x[0] / (x[0] - x[1]); })    \
+  ROW(L " cv(cp, R) = cp - R", 2, 1, (CT(CVt, Ex<CPt>, Ex<Rt>)), fraction2, { o[0] = CVt(S<CPt>(x[0]), S<Rt>(x[1])).Value(); }, { o[0] = x[0] - x[1]; })                       \
+  ROW(L " cv(cp, gamma) = cp / gamma", 2, 1, (CT(CVt, Ex<CPt>, Ex<HCR>)), gamma2, { o[0] = CVt(S<CPt>(x[0]), S<HCR>(x[1])).Value(); }, { o[0] = x[0] / x[1]; })              \
+  ROW(L " cp(cv, R) = cv + R", 2, 1, (CT(CPt, Ex<CVt>, Ex<Rt>)), ID, { o[0] = CPt(S<CVt>(x[0]), S<Rt>(x[1])).Value(); }, { o[0] = x[0] + x[1]; })
+  GAS_ROWS(ECP, ECV, GC, "extensive:")
+  GAS_ROWS(CP, CV, SGC, "specific:")
+  ROW("GasConstant(SpecificGasConstant, Mass) = R m", 2, 1, (CT(GC, Ex<SGC>, Ex<Mass<T>>)), ID, { o[0] = GC(S<SGC>(x[0]), S<Mass<T>>(x[1])).Value(); }, { o[0] = x[0] * x[1]; })
+  ROW("SpecificIsobaricHeatCapacity(IsobaricHeatCapacity, Mass) = Cp / m", 2, 1, (CT(CP, Ex<ECP>, Ex<Mass<T>>)), ID, { o[0] = CP(S<ECP>(x[0]), S<Mass<T>>(x[1])).Value(); }, { o[0] = x[0] / x[1]; })
+  ROW("SpecificIsochoricHeatCapacity(IsochoricHeatCapacity, Mass) = Cv / m", 2, 1, (CT(CV, Ex<ECV>, Ex<Mass<T>>)), ID, { o[0] = CV(S<ECV>(x[0]), S<Mass<T>>(x[1])).Value(); }, { o[0] = x[0] / x[1]; })
+  ROW("IsobaricHeatCapacity(SpecificIsobaricHeatCapacity, Mass) = cp m", 2, 1, (CT(ECP, Ex<CP>, Ex<Mass<T>>)), ID, { o[0] = ECP(S<CP>(x[0]), S<Mass<T>>(x[1])).Value(); }, { o[0] = x[0] * x[1]; })
+  ROW("IsochoricHeatCapacity(SpecificIsochoricHeatCapacity, Mass) = cv m", 2, 1, (CT(ECV, Ex<CV>, Ex<Mass<T>>)), ID, { o[0] = ECV(S<CV>(x[0]), S<Mass<T>>(x[1])).Value(); }, { o[0] = x[0] * x[1]; })
   ROW("SpecificGasConstant(GasConstant, Mass) = R / m", 2, 1, (CT(SGC, Ex<GC>, Ex<Mass<T>>)), ID, { o[0] = SGC(S<GC>(x[0]), S<Mass<T>>(x[1])).Value(); }, { o[0] = x[0] / x[1]; })
   // ---- thermal diffusivity, kinematic viscosity
   ROW("ThermalDiffusivity(ScalarThermalConductivity, MassDensity, SpecificIsobaricHeatCapacity) = k / (rho cp)", 3, 1, (CT(TD, Ex<TC>, Ex<MD>, Ex<CP>)), ID,
